@@ -19,7 +19,7 @@ class Contract:
 
     def __init__(self, qual, pre=None, post=None, raises=(), modifies=(), frame=None, loops=None,
                  result=None, allocates=False, params=None, assumptions=(), trusted=False, doc='',
-                 native=None, gen=None, decreases=None, props=(), defs=None, axioms=None, cases=None, preserves=()):
+                 native=None, gen=None, decreases=None, props=(), defs=None, axioms=None, cases=None, preserves=(), ncases=0):
         self.qual = qual
         self.pre, self.post = pre, post
         self.raises = tuple(raises)
@@ -37,6 +37,7 @@ class Contract:
         self.decreases = decreases
         self.props = tuple(props)
         self.defs = defs
+        self.ncases = ncases      # number of cases (lets the runner verify them in parallel)
         self.preserves = tuple(preserves)   # heap-implicit predicates whose ground atoms survive this call
         self.cases = cases        # (cx) -> exhaustive list of Bools; the body is verified once per case
         self.axioms = axioms      # definitional facts (spec unfoldings) assumed on both sides
